@@ -18,6 +18,7 @@ ASSUMPTIONS = ["reference base58 (long division on digit lists) in vf/ref/base58
                "it is checked against the doctest literals of the repository in the selftest"]
 OBLIGATIONS = {
     "history_sequences": "operation sequences (non-initial process states) explored",
+    "concurrent_calls": "interleavings of two concurrent check-decodes (cold and after sequential warm-up decodes)",
     "empty_input": "the empty byte string / empty Base58 string was encoded/decoded",
     "leading_zeros": "an input with >= 2 leading zero bytes was round-tripped",
     "mutant_valid": "a mutated string that is itself checksum-valid was offered (must be accepted)",
@@ -103,7 +104,34 @@ def chk_str(case):
 CASES = {"bytes": chk_bytes, "str": chk_str}
 
 
+def _concur_setup(case):
+    import bits.base58 as b58
+    strs = [bytes.fromhex(x) for x in case["strs"]]
+    warm_strs = [bytes.fromhex(x) for x in case.get("warm", [])]
+    calls = [(lambda s=s: b58.base58check_decode(s)) for s in strs]
+    warm = (lambda: [call(b58.base58check_decode, w) for w in warm_strs]) if warm_strs else None
+
+    def judge(results, errors):
+        out = []
+        for i, s in enumerate(strs):
+            exp = R.check_decode(s)
+            if i in errors:
+                if exp is not None:
+                    out.append(("C07/concurrent/raised", f"thread {i}: base58check_decode({s!r}) raised {errors[i]}"))
+            elif exp is None:
+                out.append(("C07/concurrent/invalid-accepted", f"thread {i}: base58check_decode({s!r}) returned {results[i]!r} for an invalid string"))
+            elif results[i] != exp:
+                out.append(("C07/concurrent/wrong-payload", f"thread {i}: base58check_decode({s!r}) = {bytes(results[i]).hex()}, "
+                            f"expected {exp.hex()} (warm-up decodes before the threads: {warm_strs})"))
+        return out
+    return calls, warm, judge
+
+
 def run_case(kind, case):
+    if kind == "concur":
+        from vf import concur
+        calls, warm, judge = _concur_setup(case)
+        return concur.replay_calls(calls, ("bits/base58.py",), case["choices"], judge, warmup=warm)
     if kind == "seq":
         from vf import seqexplore
         return seqexplore.replay(run_case, case)
@@ -210,6 +238,13 @@ def gen_strs(job):
         for s in edits.edits1(base):
             if zlib.crc32(s) % nsh == sh:
                 yield s
+        if sh == 0:
+            # the valid string wrapped the way other notations wrap it (BIP21 URI scheme, whitespace, quotes, a query part)
+            for p in (b"bitcoin:", b"BITCOIN:", b"bitcoin://", b"Bitcoin:", b"lightning:", b" ", b"\n", b"\t", b'"', b"'", b"<", b"\xef\xbb\xbf"):
+                yield p + base
+            for q in (b"?amount=1", b" ", b"\n", b"\r\n", b'"', b"'", b">", b"\x00", b",", b"/"):
+                yield base + q
+            yield b"bitcoin:" + base + b"?amount=0.1"
     elif part == "edit2":
         base = base_strings(job["seed"])[job["idx"]]
         yield from edits.subst2(base, B58 + NONALPHA)
@@ -239,6 +274,8 @@ def jobs(tier, seed):
             js.append({"name": f"str/edit2/{i}", "kind": "str", "part": "edit2", "idx": i, "weight": 20})
     from vf.runner import seq_jobs
     js += seq_jobs(2, weight=2)
+    for i in range(4):
+        js.append({"name": f"concurrent-decode/{i}", "part": "concur", "kind": "concur", "idx": i, "weight": 4})
     return js
 
 
@@ -248,6 +285,19 @@ def run_job(job):
         return run_seq_job(job, seq_ops(job), run_case)
     acc = Acc(job)
     seen = set()
+    if job["part"] == "concur":
+        from vf import concur
+        bs = base_strings(job["seed"])
+        A, Bs, Z = bs[2], bs[3], bs[5]
+        bad = Bs[:-1] + (b"1" if Bs[-1:] != b"1" else b"2")
+        scen = [{"strs": [Bs, Bs], "warm": []}, {"strs": [Bs, Bs], "warm": [A]}, {"strs": [A, Bs], "warm": [Z]},
+                {"strs": [Bs, bad], "warm": [A, bad]}][job["idx"]]
+        case = {"strs": [x.hex() for x in scen["strs"]], "warm": [x.hex() for x in scen["warm"]]}
+        calls, warm, judge = _concur_setup(case)
+        ex = concur.explore_calls(acc, calls, ("bits/base58.py",), 1 if job["tier"] == "quick" else 2, judge, "concur", case, warmup=warm)
+        acc.ob("concurrent_calls", ex.executions)
+        acc.sample({"concurrent_decode": case, "executions": ex.executions})
+        return acc.result()
     if job["kind"] == "bytes":
         for b in gen_bytes(job):
             if b in seen:
